@@ -361,6 +361,18 @@ def read_sha(root=None):
         pads[var] = c_int(m.group(1))
         if not 0 <= pads[var] <= 255:
             raise TieBroken('Sha256::hmac: pad constant %d is not a byte' % pads[var])
+    # No state shared between hasher objects: the model gives every Sha256 object a state of its own (eight words, counter,
+    # buffer) and Transform/WriteByteBlock/update/finalize/hash/hmac only locals.  Storage of static duration other than
+    # the constant table K would be shared by all objects (and by all threads): every `static` in the two files must be
+    # one of the known declarations.
+    allowed = {cpp.rel: [r'const\s+UInt32\s+K\s*\[\s*64\s*\]\s*;', r'void\s+Transform\s*\(', r'void\s+WriteByteBlock\s*\('],
+               hpp.rel: [r'const\s+usize\s+blockSize\s*=', r'const\s+usize\s+digestSize\s*=', r'void\s+hash\s*\(', r'void\s+hmac\s*\(']}
+    for src in (cpp, hpp):
+        for m in re.finditer(r'(?<![\w])(static|thread_local|extern)(?![\w])', src.masked):
+            rest = src.masked[m.end():m.end() + 200]
+            if m.group(1) != 'static' or not any(re.match(r'\s+' + rx, rest) for rx in allowed[src.rel]):
+                raise TieBroken('%s:%d: `%s %s` - storage shared between Sha256 objects (the model has none besides the table K)'
+                                % (src.rel, src.line(m.start()), m.group(1), ' '.join(rest.split())[:40]))
     return {'K': K, 'K_type': kty, 'H0': H0, 'H0_type': hty, 'opad': pads['oKeyPad'], 'ipad': pads['iKeyPad'],
             'header': cpp.rel + ' and ' + hpp.rel}
 
